@@ -14,7 +14,7 @@ CFG = {'quick': 'gen/MC_C10_q.cfg', 'thorough': 'gen/MC_C10_t.cfg'}
 
 def sig(r):
     c = r['case'] if isinstance(r.get('case'), dict) else {}
-    s = {k: c.get(k) for k in ('k', 'f', 'path', 'kind', 'name', 'limit', 'depth', 'maxitems', 'count', 'op') if k in c}
+    s = {k: c.get(k) for k in ('k', 'f', 'path', 'kind', 'name', 'sib', 'limit', 'depth', 'maxitems', 'count', 'op') if k in c}
     if 'what' in r:
         s['what'] = r['what']
     return s
@@ -39,7 +39,8 @@ def run(tier):
                    'arrays and maps; UBJSON plain/counted arrays and objects; BSON documents/arrays) x max_nesting_depth in Limits_ x depth in '
                    '{limit-1..limit+2}; encoders: 5 formats x declared/undeclared arrays/objects x the same grid; UBJSON max_items {0,1,2,5} x announced '
                    'counts; 23 claimed-length headers x payloads with the allocation peak compared with 64*supplied+256KiB; deep values: copy, compare, '
-                   'dump, destroy, parse+destroy at depth 1024 and destroy at depth 10^6 / 2*10^5 (objects) on a 1 MiB stack')
+                   'dump, destroy, parse+destroy at depth 1024 and destroy at depth 10^6 / 2*10^5 (objects, alternating object/array, json and ojson) on a 1 MiB stack; '
+                   'sibling family: 18 kinds of completed containers (incl. CBOR typed and multi-dimensional arrays) x 1/3/8 repetitions before a nest at the limit / one beyond')
     cov['bounds'] = open(os.path.join(vf.SPEC, CFG[tier])).read().split('CONSTANTS')[1].split()
     cov['samples'] = vf.sample_lines(g[0], 3)
     rep.assumptions += ['stack depth and heap peak are measured by the harness (sensors); the memory bound constants are deliberately loose',
